@@ -236,7 +236,21 @@ class Ranges:
         elif 'else' not in vals and vals and all(isinstance(v, int) for v in vals):
             c = canon(B, t['d'])
             out.append((c, min(vals), max(vals)))
-        # discriminant of Result/Option from try_from etc.: handled by callers that need it
+        # `if let Ok(v) = T::try_from(x)` / `match x.try_into() { Ok(v) => .. }`: on the Ok edge x lies in T's range
+        sd = B.switch_on_discr(src)
+        if sd and 'core::result::Result<' in sd[1] and not sd[0].get('p'):
+            d = B.single_def(sd[0]['l'])
+            if d is not None and d[0] == 't':
+                g, r = callee_of(d[3])
+                nm = r or g or ''
+                import re
+                m = re.search(r'TryFrom<(\w+)> for (\w+)>::try_from$', nm) or re.search(r'TryInto<(\w+)> for (\w+)>::try_into$', nm)
+                if m and d[3]['args']:
+                    to = m.group(2) if 'TryFrom' in nm else m.group(1)
+                    tr = ty_range(to)
+                    ok_edge = ('else' not in vals and vals == [0])
+                    if tr and ok_edge:
+                        out.append((canon(B, d[3]['args'][0]), tr[0], tr[1]))
         return out
 
     def _bool_facts(self, source, truth, at_bb):
